@@ -14,7 +14,7 @@ import traceback
 from . import build
 
 VERIF = build.VERIF
-EVID = os.path.join(VERIF, "evidence")
+EVID = os.environ.get("VERIF_EVID_DIR") or os.path.join(VERIF, "evidence")   # override only for mutant/seed trials
 FINDINGS = os.path.join(VERIF, "known_findings.jsonl")
 NPROC = int(os.environ.get("VERIF_NPROC", "16"))
 
